@@ -30,6 +30,11 @@ RULE = ('pairs (data set, transformed data set) for each estimator class of the 
         '(fresh index / labels travelling with the rows), index shifted / shuffled / float / string / duplicated / '
         'all-equal / named, affine map of X (a of both signs), relabelled category codes (C(.) formulas; reference '
         'level changes), 1-A (targets, plans and probabilities recoded accordingly), cY+d with c of both signs. '
+        'cells with frequency weights (integer and fractional / not mean-one, varying inside every cell) on every class '
+        'that takes `weights`, crossed with every standardize target, stabilization and missing outcomes; '
+        'TimeFixedGFormula also through a custom plan and the deterministic stochastic plans p=1 / p=0; every reported '
+        'column of the effect-measure frames (per-level risks / rates with SD and limits, CLR / CLD, Frechet bounds, n, '
+        'missing counters; frames always contain rows missing only the outcome / only the exposure / only the time); '
         'cells with truncation bounds that bite (symmetric float cutting ~20% of the rows; asymmetric pair at the 15%/80% '
         'quantiles of the fitted probabilities, lo != 1-hi) on every model that takes `bound` (IPTW treatment/missing, '
         'AIPTW exposure/missing, TMLE exposure/missing/outcome, StochasticTMLE exposure, GEstimationSNM missing, IPSW '
@@ -331,7 +336,7 @@ def full_rows(df, arr, ycol='Y'):
 def run_iptw(df, spec, opt):
     from zepid.causal.ipw import IPTW
     o = Obs()
-    ipt = IPTW(df, treatment='A', outcome='Y', standardize=tgt_of(spec, opt['tgt']))
+    ipt = IPTW(df, treatment='A', outcome='Y', standardize=tgt_of(spec, opt['tgt']), **wkw(opt))
     ipt.treatment_model(COVF, stabilized=opt['stab'], print_results=False,
                         **bnd(spec, opt, 'treat', mirror=spec.get('flipped')))
     if opt.get('miss'):
@@ -340,6 +345,8 @@ def run_iptw(df, spec, opt):
     ipt.marginal_structural_model('A')
     ipt.fit()
     o.put('iptw', 'rows', full_rows(df, ipt.iptw))
+    ipt.positivity()
+    o.put('positivity', 'inv', [ipt._pos_avg, ipt._pos_sd, ipt._pos_min, ipt._pos_max])
     if opt['ytype'] == 'binary':
         t = ipt.risk_difference
         o.put('RD', 'diff', t.loc['A', 'RD'])
@@ -411,6 +418,8 @@ def rows_kw(d, acol='A', ycol='Y', obs=None):
     y = d[ycol].tolist()
     kw = dict(s=enc_list([0] * len(d), str), a=enc_list(d[acol].fillna(0).tolist(), lambda v: str(int(v))),
               y=','.join('_' if (isinstance(v, float) and math.isnan(v)) else fx(v) for v in y))
+    if 'w' in d.columns:
+        kw['w'] = enc_list(d['w'].astype(float), fx)
     if obs is not None:
         kw['obs'] = enc_list(obs, lambda v: str(int(v)))
         kw['y'] = ','.join(fx(0.0 if (isinstance(v, float) and math.isnan(v)) else v) for v in y)
@@ -420,7 +429,7 @@ def rows_kw(d, acol='A', ycol='Y', obs=None):
 def run_stoch(df, spec, opt):
     from zepid.causal.ipw import StochasticIPTW
     o = Obs()
-    s = StochasticIPTW(df, treatment='A', outcome='Y')
+    s = StochasticIPTW(df, treatment='A', outcome='Y', **wkw(opt))
     s.treatment_model(COVF, print_results=False)
     fl = spec.get('flipped')
     p = opt['p']
@@ -449,7 +458,7 @@ def run_gf(df, spec, opt):
     from zepid.causal.gformula import TimeFixedGFormula
     o = Obs()
     g = TimeFixedGFormula(df, exposure='A', outcome='Y', outcome_type=opt['ytype'],
-                          standardize=tgt_of(spec, opt['tgt']))
+                          standardize=tgt_of(spec, opt['tgt']), **wkw(opt))
     g.outcome_model(OUTF, print_results=False)
     g.fit('all')
     r1, q1 = float(g.marginal_outcome), np.asarray(g.predicted_df['Y'], dtype=float)
@@ -457,6 +466,19 @@ def run_gf(df, spec, opt):
     r0, q0 = float(g.marginal_outcome), np.asarray(g.predicted_df['Y'], dtype=float)
     o.put('arms', 'arms', [r1, r0])
     o.put('diff', 'diff', r1 - r0)
+    # a custom plan (treat exactly the rows with L1 = its first code), recoded with the treatment
+    code = spec['codes']['L1'][0]
+    g.fit("g['L1']%s%d" % ('!=' if spec.get('flipped') else '==', code))
+    o.put('custom_plan', 'mean', g.marginal_outcome)
+    # deterministic stochastic plans (p = 1 / p = 0 draw nothing random): exact identities with fit('all') / fit('none')
+    fl = spec.get('flipped')
+    g.fit_stochastic(p=0.0 if fl else 1.0, samples=2, seed=0)
+    s1 = float(g.marginal_outcome)
+    g.fit_stochastic(p=1.0 if fl else 0.0, samples=2, seed=0)
+    s0 = float(g.marginal_outcome)
+    o.put('stochastic_p1_p0', 'mean', [s1, s0])
+    o.put('stochastic_equals_fit', 'inv', [float(close(s1, r0 if fl else r1, rtol=1e-10)),
+                                           float(close(s0, r1 if fl else r0, rtol=1e-10))])
     o.est, o.q1, o.q0 = g, q1, q0
     return o
 
@@ -493,7 +515,7 @@ def dr_common(o, e, ytype, tmle):
 def run_aiptw(df, spec, opt):
     from zepid.causal.doublyrobust import AIPTW
     o = Obs()
-    a = AIPTW(df, exposure='A', outcome='Y')
+    a = AIPTW(df, exposure='A', outcome='Y', **wkw(opt))
     a.exposure_model(COVF, print_results=False, **bnd(spec, opt, 'treat'))
     if opt.get('miss'):
         a.missing_model(OUTF, print_results=False, **bnd(spec, opt, 'miss'))
@@ -516,10 +538,11 @@ def k_aiptw(drv, o, base, rel, spec, opt):
     ok = rep['status'] == 'ok'
     if ok:
         y1, y0, var = unfx(rep['y1']), unfx(rep['y0']), unfx(rep['var'])
+        se = float('nan') if opt.get('w') else math.sqrt(var)       # weighted AIPTW reports no variance (NaN)
         if opt['ytype'] == 'binary':
-            ok = allclose([y1 - y0, y1 / y0, math.sqrt(var)], [o['RD'][1], o['RR'][1], o['SE(RD)'][1]], 1e-9, 1e-12)
+            ok = allclose([y1 - y0, y1 / y0, se], [o['RD'][1], o['RR'][1], o['SE(RD)'][1]], 1e-9, 1e-12)
         else:
-            ok = allclose([y1 - y0, math.sqrt(var)], [o['ATE'][1], o['SE(ATE)'][1]], 1e-9, 1e-12)
+            ok = allclose([y1 - y0, se], [o['ATE'][1], o['SE(ATE)'][1]], 1e-9, 1e-12)
     return ok, rep
 
 
@@ -541,7 +564,7 @@ def run_tmle(df, spec, opt):
 def run_snm(df, spec, opt):
     from zepid.causal.snm import GEstimationSNM
     o = Obs()
-    s = GEstimationSNM(df, exposure='A', outcome='Y')
+    s = GEstimationSNM(df, exposure='A', outcome='Y', **wkw(opt))
     # domain of the shift / recoding clauses: every SNM modifier (and their products) is in the exposure model
     s.exposure_model(COVF + ' + B', print_results=False)
     s.structural_nested_model(opt['snm'])
@@ -560,9 +583,9 @@ def run_snm(df, spec, opt):
 def snm_reference(s, opt):
     """nuisance layer: the exposure model fitted by the harness with the documented arguments"""
     d = s.df.copy()
-    wcol = None
+    wcol = 'w' if opt.get('w') else None
     if s.ipmw is not None:
-        d['_w_'] = s.ipmw
+        d['_w_'] = s.ipmw * d['w'] if opt.get('w') else s.ipmw
         wcol = '_w_'
     d = d.dropna()
     f = sm.families.family.Binomial()
@@ -605,7 +628,7 @@ def sample_rows(df, arr, mask):
 def run_ipsw(df, spec, opt):
     from zepid.causal.generalize import IPSW
     o = Obs()
-    e = IPSW(df, exposure='A', outcome='Y', selection='S', generalize=opt['gen'])
+    e = IPSW(df, exposure='A', outcome='Y', selection='S', generalize=opt['gen'], **wkw(opt))
     e.sampling_model(COVF, stabilized=opt['stab'], print_results=False, **bnd(spec, opt, 'samp'))
     e.treatment_model(COVF, stabilized=opt['stab'], print_results=False,
                       **bnd(spec, opt, 'treat', mirror=spec.get('flipped')))
@@ -636,7 +659,7 @@ def k_ipsw(drv, o, base, rel, spec, opt):
 def run_gtrans(df, spec, opt):
     from zepid.causal.generalize import GTransportFormula
     o = Obs()
-    e = GTransportFormula(df, exposure='A', outcome='Y', selection='S', generalize=opt['gen'])
+    e = GTransportFormula(df, exposure='A', outcome='Y', selection='S', generalize=opt['gen'], **wkw(opt))
     e.outcome_model(OUTF, print_results=False)
     e.fit()
     o.put('RD', 'diff', e.risk_difference)
@@ -706,13 +729,15 @@ def run_stmle(df, spec, opt):
     o.put('all_se', 'se', t.marginal_se)
     o.put('all_ci', 'cimean', t.marginal_ci)
     o.put('all_cond_se', 'se', t.conditional_se)
+    o.put('all_cond_ci', 'cimean', t.conditional_ci)
     if spec.get('_kind') is None or spec['_kind'] in INDEX_KINDS + ['affx+', 'affx-', 'relabel', 'affy+', 'affy-']:
         t.fit(p=0.4, samples=12, seed=11)
         o.put('mc_marginal', 'mean', t.marginal_outcome)
         o.put('mc_se', 'se', t.marginal_se)
         o.put('mc_ci', 'cimean', t.marginal_ci)
         o.put('mc_cond_se', 'se', t.conditional_se)
-    o.optional = {'mc_marginal', 'mc_se', 'mc_ci', 'mc_cond_se'}
+        o.put('mc_cond_ci', 'cimean', t.conditional_ci)
+    o.optional = {'mc_marginal', 'mc_se', 'mc_ci', 'mc_cond_se', 'mc_cond_ci'}
     return o
 
 
@@ -781,6 +806,29 @@ def run_measure(df, spec, opt):
         o.put('%s[%d]' % (sdcol, orig), ks, row[sdcol])
         o.put('CI[%d]' % orig, kc, [row[lcl], row[ucl]])
     o.put('missing', 'inv', [obj._missing_e, obj._missing_d, obj._missing_ed])
+    # secondary reported quantities: the per-level summaries (risk / incidence rate with SD and limits, reference row
+    # included; under 1-E of a binary exposure the two rows exchange), the limit ratio / difference, the Frechet bounds
+    # of RiskDifference (mirrored [-U, -L] under 1-E), the counters
+    flipped = bool(spec.get('flipped'))
+    lev_cols = [c for c in ('Risk', 'SD(Risk)', 'Risk_LCL', 'Risk_UCL', 'IncRate', 'SD(IncRate)', 'IncRate_LCL',
+                            'IncRate_UCL') if c in res.columns]
+    for lab in res.index:
+        cur = int(float(str(lab).replace('Ref:', '')))
+        orig = inv[cur]
+        if flipped:
+            orig = 1 - orig
+        if lev_cols:
+            o.put('level_summary[%d]' % orig, 'inv', [res.loc[lab, c] for c in lev_cols])
+        if not str(lab).startswith('Ref:'):
+            for c in ('CLR', 'CLD'):
+                if c in res.columns:
+                    o.put('%s[%d]' % (c, inv[cur]), 'inv', res.loc[lab, c])
+            if 'LowerBound' in res.columns:
+                o.put('Frechet[%d]' % inv[cur], 'cidiff', [res.loc[lab, 'LowerBound'], res.loc[lab, 'UpperBound']])
+    if hasattr(obj, 'n'):
+        o.put('n', 'inv', obj.n)
+    if hasattr(obj, '_missing_t'):
+        o.put('missing_t', 'inv', obj._missing_t)
     o.est, o.frame = obj, df
     return o
 
@@ -829,6 +877,14 @@ CLASSES = {
 
 # ------------------------------------------------------------------------------------------------ data sets per group
 def frame_data(rng, nlev):
+    while True:
+        df = frame_data1(rng, nlev)
+        cc = df.dropna(subset=['exp', 'dis'])
+        if all(((cc['exp'] == l) & (cc['dis'] == y)).sum() > 0 for l in range(nlev) for y in (0, 1)):
+            return df               # every cell of the cross-tabulation occupied (the count functions reject zeros)
+
+
+def frame_data1(rng, nlev):
     n = int(rng.integers(60, 200))
     e = rng.integers(0, nlev, size=n).astype(float)
     base = rng.uniform(0.25, 0.75, size=nlev)
@@ -837,7 +893,25 @@ def frame_data(rng, nlev):
     pm = float(rng.choice([0.0, 0.1, 0.25]))
     for arr in (e, d, t):
         arr[rng.uniform(size=n) < pm * rng.uniform()] = np.nan
+    # always some rows missing ONLY the outcome, ONLY the exposure, ONLY the time (each counter / denominator differs)
+    idx = rng.permutation(n)
+    d[idx[:int(rng.integers(3, 9))]] = np.nan
+    e[idx[10:10 + int(rng.integers(2, 6))]] = np.nan
+    t[idx[20:20 + int(rng.integers(2, 6))]] = np.nan
     return pd.DataFrame({'exp': e, 'dis': d, 't': t})
+
+
+def add_w(rng, df, kw):
+    """frequency-weight column: varies inside every (stratum, arm) cell; integer for kw['w']='int', fractional and not
+    mean-one for 'frac'"""
+    if kw.get('w') == 'int':
+        df['w'] = rng.integers(1, 5, size=len(df)).astype(int)
+    elif kw.get('w'):
+        df['w'] = rng.choice([0.5, 1.0, 1.5, 2.25, 3.0], size=len(df))
+
+
+def wkw(opt, name='weights'):
+    return {name: 'w'} if opt.get('w') else {}
 
 
 def make(group, seed, **kw):
@@ -846,11 +920,13 @@ def make(group, seed, **kw):
     if group == 'point':
         df, covs = point_data(rng, kw['ytype'], kw.get('missing'))
         df['B'] = (rng.uniform(size=len(df)) < 1 / (1 + np.exp(-0.8 * df['X']))).astype(int)
+        add_w(rng, df, kw)
         if kw.get('xmiss'):                     # incomplete covariate rows (dropped by check_input_data)
             df.loc[rng.uniform(size=len(df)) < 0.06, 'X'] = np.nan
         spec = {'a': ['A'], 'y': ['Y'], 'x': ['X'], 'cat': covs}
     elif group == 'gen':
         df, covs = gen_data(rng)
+        add_w(rng, df, kw)
         spec = {'a': ['A'], 'y': ['Y'], 'x': ['X'], 'cat': covs}
     elif group == 'wide':
         K = kw['K']
@@ -1145,6 +1221,27 @@ def cells(tier):
             out.append(('AIPSW', dict(gen=g, stab=stab)))
         out.append(('AIPSW', dict(gen=g, stab=True, treat=False)))
         out.append(('GTransportFormula', dict(gen=g)))
+    # frequency weights (integer and fractional, varying inside every cell) crossed with every standardization target,
+    # with stabilization and with missing outcomes, on every class that takes `weights`
+    for i, tgt in enumerate(('population', 'exposed', 'unexposed')):
+        wk = ('int', 'frac')[i % 2]
+        out.append(('TimeFixedGFormula', dict(ytype='binary', tgt=tgt, w=wk)))
+        out.append(('TimeFixedGFormula', dict(ytype='normal', tgt=tgt, w=('frac', 'int')[i % 2])))
+        out.append(('TimeFixedGFormula', dict(ytype='normal', tgt=tgt, w=wk, miss=True, missing='mar')))
+        out.append(('IPTW', dict(ytype='binary', stab=True, tgt=tgt, w=wk)))
+        out.append(('IPTW', dict(ytype='normal', stab=False, tgt=tgt, w=('frac', 'int')[i % 2])))
+    out.append(('IPTW', dict(ytype='normal', stab=True, tgt='population', w='frac', miss=True, missing='mar')))
+    out.append(('StochasticIPTW', dict(ytype='binary', p=0.35, w='frac')))
+    out.append(('StochasticIPTW', dict(ytype='normal', p=0.7, w='int')))
+    out.append(('AIPTW', dict(ytype='binary', w='frac')))
+    out.append(('AIPTW', dict(ytype='normal', w='int')))
+    out.append(('AIPTW', dict(ytype='normal', w='frac', miss=True, missing='mar')))
+    out.append(('GEstimationSNM', dict(ytype='normal', snm='A', w='frac')))
+    out.append(('GEstimationSNM', dict(ytype='normal', snm='A + A:B', w='int')))
+    out.append(('GEstimationSNM', dict(ytype='normal', snm='A', w='frac', miss=True, missing='mar')))
+    for g in (True, False):
+        out.append(('IPSW', dict(gen=g, stab=g, w='frac' if g else 'int')))
+        out.append(('GTransportFormula', dict(gen=g, w='int' if g else 'frac')))
     # truncation bounds that bite (symmetric float and asymmetric pair with lo != 1-hi), every class that takes `bound`
     for b in ('sym', 'asym'):
         out.append(('IPTW', dict(ytype='binary', stab=True, tgt='population', miss=True, missing='mar', bound=b,
@@ -1175,7 +1272,7 @@ def cells(tier):
 
 
 def run(chk, drv, rng, tier):
-    reps = 1 if tier == 'quick' else 6
+    reps = 1 if tier == 'quick' else 5
     cs = cells(tier)
     chk.extra['configuration_cells'] = len(cs)
     if drv is not None:
